@@ -433,6 +433,33 @@ class SimFS(object):
                 names.add(p[len(pref):].split("/")[0])
         return sorted(names)
 
+    # -- access by simulated child processes (logged, stamped) -------------------
+    def child_read(self, path):
+        path = self.norm(path)
+        self.opcount += 1
+        self.oplog.append(("child-read", path, 0, self.clock.now))
+        if self.log is not None:
+            self.log.ev("fs", "child-read", path, 0, self.clock.now)
+        if path in self.files:
+            return bytes(self.files[path])
+        return None
+
+    def child_write(self, path, data):
+        path = self.norm(path)
+        if isinstance(data, str):
+            data = data.encode("utf-8")
+        self.opcount += 1
+        inc = self._tick_draw() if self._tick_draw else 1
+        self.clock.tick(inc)
+        self.oplog.append(("child-write", path, len(data), self.clock.now))
+        if self.log is not None:
+            self.log.ev("fs", "child-write", path, len(data), self.clock.now)
+        if posixpath.dirname(path) not in self.dirs:
+            return False
+        self.files[path] = bytearray(data)
+        self.mtime[path] = self.clock.now
+        return True
+
     # -- harness-side access (not logged, not part of the seam) ------------------
     def peek(self, path):
         path = self.norm(path)
@@ -466,7 +493,7 @@ class SimFS(object):
     def mutations(self, since=0):
         return [e for e in self.oplog[since:]
                 if e[0] in ("open-w", "open-a", "open-x", "write", "flush", "remove",
-                            "replace", "makedirs", "mkdir")]
+                            "replace", "makedirs", "mkdir", "child-write")]
 
 
 class _SimPath(object):
